@@ -397,6 +397,30 @@ def _str_job(item):
     return part.dump()
 
 
+def _nary_job(item):
+    """And / Or with 3 and 4 conjuncts mixing comparisons that share operands with plain Boolean variables"""
+    w, opn = item
+    _limits()
+    part = Part()
+    x = claripy.BVS(f"wx{w}", w, explicit_name=True)
+    y = claripy.BVS(f"wy{w}", w, explicit_name=True)
+    c = claripy.BoolS("wc", explicit_name=True)
+    d = claripy.BoolS("wd", explicit_name=True)
+    pool = [("x==1", x == 1), ("x!=2", x != 2), ("x<y", claripy.ULT(x, y)), ("x==y", x == y), ("c", c), ("!c", claripy.Not(c)), ("d", d), ("x<=3", claripy.ULE(x, 3)), ("x>s1", claripy.SGT(x, 1)), ("T", claripy.true()), ("F", claripy.false()), ("x!=1", x != 1), ("y==1", y == 1)]
+    f = claripy.And if opn == "And" else claripy.Or
+    for n in (3, 4):
+        src = pool if n == 3 else pool[:9]
+        for tup in itertools.product(src, repeat=n):
+            part.count("transitions")
+            part.count("nary_constructions")
+            kind, val = guarded(lambda: f(*[t[1] for t in tup]))
+            reason = classify(kind, val)
+            if reason is not None:
+                label = f"{opn}(" + ",".join(t[0] for t in tup) + ")"
+                part.fail(f"nary:{reason}:{opn}{n}", f"w={w}|{label}", {"error": str(val)[:200]}, {"kind": "nary", "w": w, "op": opn})
+    return part.dump()
+
+
 def _int_to_str_job(_):
     _limits()
     part = Part()
@@ -450,6 +474,8 @@ def run(tier: str) -> int:
         rep.merge(res)
     for res in pmap(_int_to_str_job, [0]):
         rep.merge(res)
+    for res in pmap(_nary_job, [(w, o) for w in (8, 64) for o in ("And", "Or")]):
+        rep.merge(res)
     rep.extra["alphabet_sizes"] = {"fp_per_sort": len(valspace.fp_alphabet(fpref.FLOAT, fpsize)), "strings": len(strs), "wide_consts": {w: len(valspace.bv_boundaries(w)) for w in widths}}
     rep.assumptions = [
         "memory exhaustion / hangs are observable only on the enumerated inputs (limit: RLIMIT_AS 3 GiB, 8 s)",
@@ -483,6 +509,9 @@ def replay(path: str) -> int:
             hit = any(f["case"] == c["case"] for f in res["failures"])
         elif rp.get("kind") == "fp":
             res = _fp_job((rp["sort"], rp["rm"], "full"))
+            hit = any(f["case"] == c["case"] for f in res["failures"])
+        elif rp.get("kind") == "nary":
+            res = _nary_job((rp["w"], rp["op"]))
             hit = any(f["case"] == c["case"] for f in res["failures"])
         elif rp.get("kind") == "str":
             res = _str_job((valspace.string_alphabet("full"), "full"))
